@@ -42,10 +42,22 @@ class UFRegistry(object):
     and differential checks can run the float code.  ``Y``-style symbols get a
     smooth positive family keyed by their name."""
 
-    def __init__(self):
+    def __init__(self, overrides=None):
         self.impl = {}
+        # values a solver model gave to single applications (name, args)
+        self.overrides = {}
+        for name, args, val in (overrides or []):
+            self.overrides[(name, tuple(round(float(x), 6) for x in args))] \
+                = float(val)
 
     def __call__(self, name, *vals):
+        if self.overrides:
+            try:
+                key = (name, tuple(round(float(x), 6) for x in vals))
+            except (TypeError, ValueError):
+                key = None
+            if key in self.overrides:
+                return self.overrides[key]
         if name in self.impl:
             return self.impl[name](*vals)
         return generic_uf(name, *vals)
@@ -201,7 +213,7 @@ class ConcreteBackend(Backend):
     def __init__(self, env, ufs=None):
         Backend.__init__(self)
         self.env = env
-        self.ufs = ufs or UFRegistry()
+        self.ufs = ufs or UFRegistry(env.get('__uf__'))
 
     def var(self, name, default=None):
         if name in self.env:
@@ -740,7 +752,7 @@ def _numeric_witness(solver, p, lt_, rt_):
 
 
 def _fl(env):
-    return {k: float(v) for k, v in env.items()}
+    return {k: (v if k == '__uf__' else float(v)) for k, v in env.items()}
 
 
 def concrete_run(fn, cfg, env, opts):
@@ -918,9 +930,9 @@ def _diffcheck(res, fn, cfg, opts, solver, p, obls):
         res.errors.append('differential run raised %r at %r\n%s' % (
             e, env, traceback.format_exc()[-1500:]))
         return
-    ufs = UFRegistry()
     conc = {ob[1]: ob for ob in Bc.obls}
     env2 = dict(Bc.env)
+    ufs = UFRegistry(env2.get('__uf__'))
     n = 0
     for ob in obls:
         if ob[0] != 'eq' or ob[1] not in conc:
